@@ -403,6 +403,9 @@ RULE += _R6["C18"]
 from vmc.tables import _ROUND7 as _R7  # noqa: E402
 
 RULE += _R7["C18"]
+from vmc.tables import _ROUND8 as _R8  # noqa: E402
+
+RULE += _R8["C18"]
 
 
 
